@@ -456,7 +456,7 @@ func vfASCII() byte {
 }
 
 // sample non-ASCII characters (2, 3, 4 bytes; the last two have ASCII lower-case forms)
-var vfWideSamples = []string{"é", "世", "𝄞", "İ", "K"}
+var vfWideSamples = []string{"é", "\uFFFD", "世", "𝄞", "İ", "K"}
 
 // vfExprChar appends one character of an "expressible" string: a symbolic
 // ASCII byte (never NUL or CR) or one of the sample multi-byte characters.
